@@ -96,6 +96,7 @@ package stake
 //@   assumes cons_ok == ctx.Exec
 //@   assumes as(ctx.Tx.Payload, ptr(TrxPayloadWithdraw)).ReqAmt != rwd_at(ctrler.rewardLedger, lkey(content(ctx.Tx.From)), ctx.Exec).cumulated && as(ctx.Tx.Payload, ptr(TrxPayloadWithdraw)).ReqAmt != rwd_at(ctrler.rewardLedger, lkey(content(ctx.Tx.From)), ctx.Exec).withdrawn
 //@   requires wf_ctx(ctx) && ctx.Tx.Type == 8
+//@   requires allocated(rwd_at(ctrler.rewardLedger, lkey(content(ctx.Tx.From)), ctx.Exec)) && allocated(rwd_at(ctrler.rewardLedger, lkey(content(ctx.Tx.From)), ctx.Exec).cumulated) && allocated(as(ctx.Tx.Payload, ptr(TrxPayloadWithdraw)).ReqAmt)
 //@   requires rwd_at(ctrler.rewardLedger, lkey(content(ctx.Tx.From)), ctx.Exec).height <= ctx.Height
 //@   requires u(as(ctx.Tx.Payload, ptr(TrxPayloadWithdraw)).ReqAmt) <= u(rwd_at(ctrler.rewardLedger, lkey(content(ctx.Tx.From)), ctx.Exec).cumulated)
 //@   modifies everything
